@@ -41,6 +41,16 @@ pub fn check(cx: &Cx, rep: &mut Report) {
                     (None, true) => t_in_final.unwrap_or(u64::MAX),
                     (None, false) => u64::MAX,
                 };
+                // ... nor once the actor has failed (L2 has no task-end event: the first sign of the failure - the injected
+                // fault, the abandoned invocation of a fail_on_timeout actor, a started() error - ends the walk)
+                let fail_at = ix
+                    .ev
+                    .iter()
+                    .filter(|e| e.task == af.task)
+                    .filter(|e| matches!(&e.k, K::Fault { .. }) || (decl.fail_on_timeout && matches!(&e.k, K::HAbandon { .. })) || matches!(&e.k, K::CbOut { cb: Cb::Started, ok: false, .. }))
+                    .map(|e| e.stamp)
+                    .min();
+                let end = fail_at.map(|f| f.min(end)).unwrap_or(end);
                 let mut returned: HashSet<u64> = HashSet::new();
                 let mut dequeued: HashSet<u64> = HashSet::new();
                 let mut maxo = 0usize;
